@@ -335,22 +335,23 @@ def inplace_edits(model):
                 if g[0] == pm[f[0]]:
                     continue
 
-                def move(fm, leaf=f[0], target=g[0]):
-                    from flamapy.metamodels.fm_metamodel.models import Relation
-                    obj = fm.get_feature_by_name(leaf)
-                    old_parent = obj.get_parent()
-                    for rel in list(old_parent.get_relations()):
-                        if any(c is obj for c in rel.children):
-                            rel.children.remove(obj)
-                            if not rel.children:
-                                old_parent.relations.remove(rel)
-                            else:
-                                rel.card_max = min(rel.card_max, len(rel.children))
-                                rel.card_min = min(rel.card_min, rel.card_max)
-                    newp = fm.get_feature_by_name(target)
-                    newp.add_relation(Relation(newp, [obj], 0, 1))
-                em = (sh._replace_feature(base, list(path2), lambda h, leafsh=f: (h[0], h[1] + ((0, 1, (leafsh,)),), h[2], h[3], h[4], h[5])), model[1])
-                out.append(('move %s under %s' % (f[0], g[0]), move, em))
+                for card in ((0, 1), (1, 1)):
+                    def move(fm, leaf=f[0], target=g[0], card=card):
+                        from flamapy.metamodels.fm_metamodel.models import Relation
+                        obj = fm.get_feature_by_name(leaf)
+                        old_parent = obj.get_parent()
+                        for rel in list(old_parent.get_relations()):
+                            if any(c is obj for c in rel.children):
+                                rel.children.remove(obj)
+                                if not rel.children:
+                                    old_parent.relations.remove(rel)
+                                else:
+                                    rel.card_max = min(rel.card_max, len(rel.children))
+                                    rel.card_min = min(rel.card_min, rel.card_max)
+                        newp = fm.get_feature_by_name(target)
+                        newp.add_relation(Relation(newp, [obj], card[0], card[1]))
+                    em = (sh._replace_feature(base, list(path2), lambda h, leafsh=f, card=card: (h[0], h[1] + ((card[0], card[1], (leafsh,)),), h[2], h[3], h[4], h[5])), model[1])
+                    out.append(('move %s under %s as [%d,%d]' % (f[0], g[0], card[0], card[1]), move, em))
     return out
 
 
